@@ -77,11 +77,21 @@ func runLoaderHistory(ctx context.Context, p *plan.Plan, w *world.World, lg *sut
 	}
 	defer os.RemoveAll(dir)
 	path := filepath.Join(dir, "tacquito."+format)
-	oldMtime := 0 // > 0: the next file written gets a modification time that many hours before 2001
+	replace := false // the next file is renamed over the old one instead of rewritten in place
+	oldMtime := 0    // > 0: the next file written gets a modification time that many hours before 2001
 	apply := func(s sut.Source, via string, text []byte) (config.ServerConfig, error) {
 		var err error
 		if via == "load" {
-			if werr := os.WriteFile(path, text, 0o644); werr != nil {
+			var werr error
+			if replace {
+				tmp := path + ".tmp-replace"
+				if werr = os.WriteFile(tmp, text, 0o644); werr == nil {
+					werr = os.Rename(tmp, path)
+				}
+			} else {
+				werr = os.WriteFile(path, text, 0o644)
+			}
+			if werr != nil {
 				return config.ServerConfig{}, werr
 			}
 			if oldMtime > 0 {
@@ -131,6 +141,7 @@ func runLoaderHistory(ctx context.Context, p *plan.Plan, w *world.World, lg *sut
 		}
 		prev = []byte(p.Scen.RawDocs[st.Doc])
 		r := LoaderStepResult{Step: i, Bytes: len(text)}
+		replace = st.Replace
 		oldMtime = 0
 		if st.OldMtime {
 			oldMtime = i + 1
@@ -240,7 +251,16 @@ func runWatcherHistory(ctx context.Context, p *plan.Plan, w *world.World, lg *su
 		}
 		text := []byte(p.Scen.RawDocs[st.Doc])
 		target := path + st.Sibling
-		if werr := os.WriteFile(target, text, 0o644); werr != nil {
+		var werr error
+		if st.Replace && st.Sibling == "" {
+			tmp := filepath.Join(dir, "zz-staged")
+			if werr = os.WriteFile(tmp, text, 0o644); werr == nil {
+				werr = os.Rename(tmp, target)
+			}
+		} else {
+			werr = os.WriteFile(target, text, 0o644)
+		}
+		if werr != nil {
 			w.Rec(world.Ev{Actor: "loader", Kind: "harness-error", S: werr.Error()})
 			return res
 		}
